@@ -31,6 +31,16 @@ pub fn gen_call(
     ctx: &Context,
     constr: &mut ConstrBuilder,
 ) -> Constrained {
+    // the arguments of a call and the value of a reassignment are expressions, also where the construct itself stands as a statement
+    gen_call_of(ast, &env.is_expr(true), ctx, constr).map(|out| out.is_expr(env.is_expr))
+}
+
+fn gen_call_of(
+    ast: &AST,
+    env: &Environment,
+    ctx: &Context,
+    constr: &mut ConstrBuilder,
+) -> Constrained {
     match &ast.node {
         Node::Reassign { left, right, op } => {
             let identifier = check_reassignable(left)?;
